@@ -988,12 +988,13 @@ func c13Views(c *eng.Ctx) {
 // ---------- C13.4 scan / clear helpers
 func c13Scan(c *eng.Ctx) {
 	if f := c.Fn("logical.scanViewPaginated"); f != nil {
-		lps := eng.Calls(f, `^<logical\.ClearableView>\.ListPage$`)
+		// the listing calls: view.ListPage(...) directly or through the method value bound to the view
+		lps, lpRecv := c13gMethodCalls(f, "ListPage")
 		c.Clause("R5", "C13.4")
 		if c.Floor(f, "ListPage in the scan", len(lps), 1) {
 			for _, l := range lps {
 				a := l.Common().Args
-				c.Prov(f, "view scanned", l, l.Common().Value, `^param:view$`)
+				c.Prov(f, "view scanned", l, lpRecv[l], `^param:view$`)
 				c.Prov(f, "page size", l, a[3], `^param:pageSize$`)
 				okA := true
 				var os []string
@@ -1003,7 +1004,7 @@ func c13Scan(c *eng.Ctx) {
 					if s == `const:""` {
 						continue
 					}
-					if strings.Contains(o.Desc, "ListPage()#0[") && strings.Contains(o.Desc, "len(") && strings.HasSuffix(o.Desc, "- 1]") {
+					if idx, isElem := c13gListedElem(o.Val, lps); isElem && c13gIsLastIndex(idx, lps) {
 						continue
 					}
 					okA = false
@@ -1026,7 +1027,8 @@ func c13Scan(c *eng.Ctx) {
 			if !ok || b.Op != token.ADD {
 				return false
 			}
-			return strings.HasPrefix(eng.Expr(b.X), "φfrontier") && strings.Contains(eng.Expr(b.Y), "ListPage()#0[")
+			_, listed := c13gListedElem(b.Y, lps)
+			return strings.HasPrefix(eng.Expr(b.X), "φfrontier") && listed
 		}
 		cbs := eng.Calls(f, `^dyn:cb$`)
 		c.Clause("R5", "C13.4")
